@@ -507,6 +507,8 @@ def check_c17(seed, tier, root=None):
         for what, target in aliases:
             n += 1
             case = dict(op="copy", target=what)
+            if not os.path.exists(s3):            # an earlier refused copy made the source vanish (reported there): start again
+                shutil.copyfile(src, s3)
             before = _sha(s3)
             try:
                 c = Tdf(s3).copy(target)
